@@ -110,7 +110,7 @@ class Interp:
         body = self.facts.mir.get(fn)
         if body is None:
             raise NotKernel("no MIR for %s" % fn)
-        if len(body["blocks"]) > MAX_BLOCKS:
+        if len(body["blocks"]) > (MAX_BLOCKS if depth > 0 else 600):
             raise NotKernel("%s has %d blocks" % (fn, len(body["blocks"])))
         env0 = {}
         for i, a in enumerate(args):
@@ -309,23 +309,35 @@ class Interp:
         if m is not None:
             yield from m
             return
-        if fn in self.facts.mir and depth < MAX_DEPTH and self.inline(fn):
+        if fn in self.facts.mir and depth < MAX_DEPTH and self.inline(fn) and fn not in getattr(self, "_failed", set()):
             b2 = self.facts.mir[fn]
             if len(b2["blocks"]) <= MAX_BLOCKS:
-                self.inlined.add(fn)
                 sub = {}
                 gen = b2.get("generics", [])
                 tas = [self.subst_ty(self.facts.ty(i)) for i in t.get("targs", [])]
                 if gen and len(gen) == len(tas):
                     sub = dict(zip(gen, tas))
-                outs = list(self.run(fn, args, heap, conds, depth + 1, subst=sub))
-                n0 = len(conds)
-                if len(outs) > 1 and all(h == heap for _, h, _ in outs):
-                    cases = tuple((tuple((freeze(c), e) for c, e in cs[n0:]), freeze(r)) for r, _, cs in outs)
-                    yield (("case", cases), heap, conds)
+                nev = len(self.events)
+                np0 = self.npaths
+                try:
+                    outs = list(self.run(fn, args, heap, conds, depth + 1, subst=sub))
+                except NotKernel:
+                    # callee is not a kernel (loops, too big): keep it opaque
+                    del self.events[nev:]
+                    self.npaths = np0
+                    if not hasattr(self, "_failed"):
+                        self._failed = set()
+                    self._failed.add(fn)
+                    outs = None
+                if outs is not None:
+                    self.inlined.add(fn)
+                    n0 = len(conds)
+                    if len(outs) > 1 and all(h == heap for _, h, _ in outs):
+                        cases = tuple((tuple((freeze(c), e) for c, e in cs[n0:]), freeze(r)) for r, _, cs in outs)
+                        yield (("case", cases), heap, conds)
+                        return
+                    yield from outs
                     return
-                yield from outs
-                return
         self.opaque_calls.add(fn)
         self.events.append((fn, tuple(args), tuple(conds)))
         yield (("call", fn, tuple(args)), heap, conds)
